@@ -10,7 +10,7 @@ CHECKS = {
             "Trusted: the ECVRF core shared by model and implementation (attacked separately in C18); blake3; the harness's own model."),
     "C02": ("exploration", "DESIGN.md §5 C02",
             "model-based PBT: every lookup / batch lookup after every epoch verified with the real client verifier and compared with the model's (value, version, epoch)",
-            "After every state-changing publish of a generated history (incl. 60-150-label batches and a 258-300-version label) every pool label (published or not) is looked up singly and in generated batches, through Directory and a fresh ReadOnlyDirectory; proofs are verified against the MODEL's root and must yield the model's latest state; unpublished labels must fail. Part faulty_and_lagging_reads: a lookup on a cached instance kept from an earlier epoch, and with every storage operation of the request failed in turn, must be an error or verify to the model at the epoch it names.",
+            "After every state-changing publish of a generated history (incl. 60-150-label batches and a 258-300-version label) every pool label (published or not) is looked up singly and in generated batches, through Directory and a fresh ReadOnlyDirectory; proofs are verified against the MODEL's root and must yield the model's latest state; unpublished labels must fail. Part faulty_and_lagging_reads: a lookup on a cached instance kept from an earlier epoch, and with every storage operation of the request failed in turn, must be an error or verify to the model at the epoch it names. Part lookups_during_publish: lookups / batch lookups on clones and read-only instances interleaved by the deterministic scheduler with 1-5 publishes; every non-error answer must verify against the epoch hash returned with it.",
             "Trusted: model (as C01); the client verifier lookup_verify is the unit under test together with the prover."),
     "C03": ("exploration", "DESIGN.md §5 C03",
             "model-based PBT over histories x HistoryParams (Complete, MostRecent N below/at/above the version count)",
@@ -34,7 +34,7 @@ CHECKS = {
             "Structural adversary with the secret key. One protocol-level known finding (epoch of a tombstoned version-1 entry is not authenticated under AllowMissingValues) is excluded by its exact shape and counted."),
     "C08": ("exploration", "DESIGN.md §5 C08",
             "bounded-exhaustive enumeration of (epoch, version pair, range) marker-set intersections + random u64 sampling + replay of pairs on real dishonest trees with the real verifiers",
-            "All E<=48 (thorough 96), n!=m, admitted ranges are enumerated for history x history and complete-history x lookup; the absent/retired set of one proof must intersect the present/not-retired set of the other; sampled and all failing pairs are replayed on a real tree built by a dishonest server and handed to key_history_verify / lookup_verify.",
+            "All E<=48 (thorough 96), n!=m, admitted ranges are enumerated for history x history and complete-history x lookup; the absent/retired set of one proof must intersect the present/not-retired set of the other; sampled and all failing pairs are replayed on a real tree built by a dishonest server (generated creation schedules: one version per epoch, several versions in one epoch; a quarter of the histories with inner versions left out) and handed to key_history_verify / lookup_verify.",
             "What a proof 'shows' is derived from the verifier code and cross-checked on real trees; one protocol-level known finding (history(n) x lookup(m>n)) is excluded by a frozen reference signature."),
     "C09": ("exploration", "DESIGN.md §5 C09",
             "PBT with adversarial append-only proofs assembled from nodes of honest and dishonest trees; end hash chosen by the adversary (the auditor's own reconstruction); survival-analysis oracle",
@@ -42,7 +42,7 @@ CHECKS = {
             "Ground truth by walking the reconstructed end tree and matching nodes of known model tries; structural adversary."),
     "C10": ("fault_enumeration", "DESIGN.md §5 C10",
             "fault injection: for generated histories EVERY storage-operation index of the targeted publish is failed in turn (single fault and outage) via a Database wrapper; oracle = model + database snapshot equality + retry",
-            "For each generated short history and manager/parallelism choice the operation count K of the targeted publish is measured, then each k<K is failed on a re-executed copy; the call must return Err, the same instance must report the previous epoch/hash with no open transaction and serve verifying proofs for the previous state, the database must equal its pre-publish snapshot at quiescence, and the retry must produce the model's next pair.",
+            "For each generated short history, manager/parallelism choice and storage behaviour (operations returning at once, or yielding to the runtime so that spawned insertion tasks interleave) the operation count K of the targeted publish is measured, then each k<K is failed on a re-executed copy; the call must return Err, the same instance must report the previous epoch/hash with no open transaction and serve verifying proofs for the previous state, the database must equal its pre-publish snapshot at quiescence, and the retry must produce the model's next pair.",
             "Faults are non-NotFound storage errors on the in-memory database; complete per targeted publish, sampled over histories."),
     "C11": ("fault_enumeration", "DESIGN.md §5 C11",
             "crash-point enumeration: the commit batch is captured and every prefix (two orders) + random subsets applied to a copy of the database; fresh reader instances compared with the model at the previous epoch",
@@ -54,7 +54,7 @@ CHECKS = {
             "Interleavings at storage-operation granularity with tree parallelism disabled; thread-level races only in the non-replayable stress mode."),
     "C13": ("exploration", "DESIGN.md §5 C13",
             "deterministic-schedule exploration of readers vs writer / poller / flush, plus lagging-instance scenarios; oracle = model at the epoch the reply names",
-            "Reader operations (lookup, batch lookup, history, audit, epoch hash) on the same instance, a clone and separate cached/uncached read-only instances are interleaved with 1-4 publishes, the change poller (virtual time) and flushes; every reply is Err or names a published (epoch, root) and verifies to the model's state at that epoch.",
+            "Reader operations (lookup, batch lookup, history, audit, epoch hash) on the same instance, a clone and separate cached/uncached read-only instances are interleaved with 1-5 publishes, the change poller and a change-signal listener (scheduler-controlled background actors, virtual time) and flushes; every reply is Err or names a published (epoch, root) and verifies to the model's state at that epoch; after the n-th change signal the polled instance must answer from an epoch >= creation epoch + n.",
             "Same schedule granularity as C12."),
     "C14": ("exploration", "DESIGN.md §5 C14",
             "differential / metamorphic PBT: same history + query script under a cross product of parallelism, cache, restart and read-only configurations and TWO feature builds; transcripts must be identical",
